@@ -201,6 +201,41 @@ PROPS = {
         "guards; swappiness restored within the tick. Floor/ceiling/guards "
         "are recomputed by the reference of DESIGN.md Appendix B.",
     },
+    "C10": {
+        "flavours": ["asan"],
+        "level": "fault_enumeration",
+        "runs": {"quick": 16, "thorough": 512},
+        "det_runs": 2,
+        "budget_s": {"quick": 240, "thorough": 3000},
+        "shrink_budget": 60,
+        "rule": "one run = one shard (1/16) of one baseline scenario: cgroup "
+        "tree with all seven detectors, dump_cgroup_overview, the five kill "
+        "plugins (wet, recursive and not, kernelkill), Senpai in both modes, "
+        "a ruleset-level cgroup ruleset and a statistics probe, 3 ticks. Per "
+        "scenario the single-fault list is enumerated completely: every "
+        "control file (22 kinds) and /proc file x {absent, empty, EACCES on "
+        "open, read error} x {one cgroup, all cgroups}; every optional key "
+        "of /proc/vmstat, /proc/meminfo and memory.stat deleted; readdir "
+        "without d_type; every index k of the fault-free file-access "
+        "sequence of every tick x {remove, remove-and-re-create} of the "
+        "cgroup being accessed; plus 12 sampled double faults per shard. "
+        "evaluations = shards run; coverage.fault_variants_executed counts "
+        "the variants; non-trivial = the shard executed variants; distinct = "
+        "distinct hash over (variant, resulting event-log hash)",
+        "level_text": "fault enumeration: for each sampled baseline scenario "
+        "the single-fault and crash-point (access index) spaces are "
+        "enumerated completely (sharded over 16 runs), each variant in its "
+        "own child process through the real Oomd::run; oracle = process "
+        "outcome (no signal, abort, ASan/UBSan/_GLIBCXX_ASSERTIONS report, "
+        "exception out of the main loop, hang), C01's containment invariants, "
+        "and faulted statistics reported unavailable (never stale/default).",
+        "level_note": "complete per sampled scenario for single faults; "
+        "double faults and scenarios themselves are sampled; the access "
+        "sequence is the one of the shard's own fault-free run; trusted base "
+        "as for the other checks",
+        "technique": "deterministic simulation with exhaustive single-fault "
+        "and crash-point injection per seeded scenario",
+    },
     "C02": {
         "flavours": ["asan"],
         "runs": {"quick": 4000, "thorough": 150000},
